@@ -140,6 +140,29 @@ func main(Acc uint64, Off uint8) (uint64, uint8, []byte) {
 	return x ^ y, vsim2.Add(Off) + Off + vsim2.Off, []byte(Tab)
 }
 `},
+		stream.Program{Name: "crafted/intern state machine (interned symbols idle, running, stopped)", Src: `package main
+
+func main(a, b uint8) uint8 {
+	var state uint8 = uint8(intern(idle))
+	if a > b {
+		state = uint8(intern(running))
+	}
+	if a == b {
+		state = uint8(intern(stopped))
+	}
+	return state
+}
+`},
+		stream.Program{Name: "crafted/intern comparison (interned symbols greater, notGreater, equal)", Src: `package main
+
+func main(a, b uint8) (uint8, uint8) {
+	r := uint8(intern(notGreater))
+	if a > b {
+		r = uint8(intern(greater))
+	}
+	return r, uint8(intern(equal)) + uint8(intern(greater))
+}
+`},
 		stream.Program{Name: "crafted/aes+hkdf+hex (three packages with package-level variables)", Src: `package main
 
 import (
@@ -387,12 +410,28 @@ func RunJob(j Job, keepSSA bool) (a Artefacts) {
 			p.CircMultArrayTreshold = tune & 0xff
 			c2 = compiler.New(p)
 		}
-		c2.Compile(h, sizes) // errors of history programs do not matter
+		func() {
+			// errors and panics of history compilations do not matter (a history
+			// entry may use another target, for which the compiler may fail on a
+			// program the case's own target accepts); what they leave behind does
+			defer func() {
+				if recover() != nil {
+					rt.Reach("history.compilation-panicked")
+				}
+			}()
+			c2.Compile(h, sizes)
+		}()
 	}
 	var ssa bytes.Buffer
 	run := func() (*circuit.Circuit, error) {
 		ssa.Reset()
 		p2, c2 := mk()
+		if j.Reuse || j.SameParams {
+			// Params.SymbolIDs (the table behind intern()) is documented to live in the
+			// Params value: a Params shared with the history would not be "the same
+			// parameters" any more. A Params of its own is left as NewParams made it.
+			p2.SymbolIDs = map[string]int{}
+		}
 		p2.SSAOut = nopCloser{&ssa}
 		defer func() { p2.SSAOut = nil }()
 		circ, _, err := c2.Compile(j.Src, j.Sizes)
